@@ -8,6 +8,7 @@ import (
 	"database/sql"
 	"encoding/json"
 	"fmt"
+	"github.com/ethereum/go-ethereum/accounts/abi/bind"
 	"math/big"
 	"sort"
 	"strings"
@@ -530,6 +531,25 @@ func (w *asWorld) checkClaimProofs(c *asCert, cs []*bridgesync.Claim) {
 		}
 		// (c) the exit's own proofs lead from the claimed leaf to those exit roots
 		exitLeaf := wireExitHash(ib.BridgeExit)
+		// … and the bridge contract's own verifyMerkleProof (real bytecode) accepts each of the three proofs
+		accepts := func(leaf common.Hash, proof []common.Hash, index uint32, rt common.Hash) bool {
+			var p [32][32]byte
+			for k := 0; k < 32 && k < len(proof); k++ {
+				p[k] = proof[k]
+			}
+			ok, err := baBridgeContract().VerifyMerkleProof(&bind.CallOpts{}, leaf, p, index, rt)
+			must(err)
+			return ok
+		}
+		if !accepts(leafHash, sibs(gerProof), lf.L1InfoTreeIndex, root) {
+			w.fail(fmt.Sprintf("[C09] certificate %d imported exit %d: the contract's verifyMerkleProof rejects the L1 info leaf proof", c.id, i))
+		}
+		if mainnet && !accepts(exitLeaf, sibs(proofs[0]), leafIdx, h32(lf.Mer)) {
+			w.fail(fmt.Sprintf("[C09] certificate %d imported exit %d: the contract's verifyMerkleProof rejects proof_leaf_mer", c.id, i))
+		}
+		if !mainnet && (!accepts(exitLeaf, sibs(proofs[0]), leafIdx, h32(proofs[0].Root)) || !accepts(h32(proofs[0].Root), sibs(proofs[1]), rollup, h32(lf.Rer))) {
+			w.fail(fmt.Sprintf("[C09] certificate %d imported exit %d: the contract's verifyMerkleProof rejects proof_leaf_ler / proof_ler_rer", c.id, i))
+		}
 		if mainnet {
 			if refCalcRoot(exitLeaf, sibs(proofs[0]), leafIdx) != h32(lf.Mer) || h32(proofs[0].Root) != h32(lf.Mer) {
 				w.fail(fmt.Sprintf("[C09] certificate %d imported exit %d: the exit leaf does not hash with proof_leaf_mer to the mainnet exit root", c.id, i))
@@ -637,7 +657,7 @@ func asWorldGen(r *Run, rng *Rng, w *asWorld, steps int) {
 	if rng.Chance(30) {
 		maxSize = uint64(200 + rng.Intn(9000))
 	}
-	fep := rng.Chance(35) // aggchain-prover flow (its start-up check waits for the syncer to reach the start block: start 0)
+	fep := rng.Chance(35)             // aggchain-prover flow (its start-up check waits for the syncer to reach the start block: start 0)
 	optWorld := fep && rng.Chance(50) // the optimistic-mode flag changes during the world
 	if fep {
 		start = 0
